@@ -52,7 +52,8 @@ MkC(par) ==
       lib   == Tm("lib", "", <<>>, r.bl \o <<BlockS("abd", "ab", <<>>, NoE, <<T("AB("), P("abc", Ctx), P("abs", Var("s")), T(")")>>)>>)
   IN [ts |-> <<Tm("main", "", <<"lib">>, main), lib>> \o r.ts,
       globals |-> [NoVarsMap EXCEPT !["g"] = "glG"],
-      runs |-> <<RunR("main", [NoVarsMap EXCEPT !["p"] = "vmP"], "D")>>,
+      \* the second execution has no data: '.' is invalid at the call site and must be so again after the call
+      runs |-> <<RunR("main", [NoVarsMap EXCEPT !["p"] = "vmP"], "D"), RunR("main", [NoVarsMap EXCEPT !["p"] = "vmP"], Nil)>>,
       tag |-> PathTag(path) \o "|" \o PathTag(ops)]
 
 OpSeqs == UNION {[1..n -> Ops] : n \in 1..2}
